@@ -1,6 +1,20 @@
 """C04 — generic-interaction sampler: loop update, exit-leg heat bath, gate, offsets, pipeline."""
-LEAN_TARGETS = ["QmcProps.C04", "drv_c04"]
-BINS = ["c04"]
+LEAN_TARGETS = ["QmcProps.C04", "drv_c04", "QmcProps.C08", "drv_c08", "QmcProps.C02", "drv_c02"]
+BINS = ["c04", "c08", "c02"]
+
+# Theorems of other properties that C04's claim rests on: the generic sampler's timestep starts with the diagonal
+# update (C08: per-slot ratio, weight step, off-diagonal operators untouched, max-weight table) and, with
+# set_do_heatbath(true), the heat-bath variant with its stored bond-weight table (C02). They are audited here too and
+# their correspondence modes are re-run, so that a change to src/sse/qmc_traits/diagonal.rs / heatbath.rs is reported
+# against C04 as well.
+KERNEL_THEOREMS = [
+    "Qmc.C08.metropolis_ratio", "Qmc.C08.heatbath_ratio", "Qmc.C08.weight_step", "Qmc.C08.detailed_balance_M",
+    "Qmc.C08.sweep_uses_current_n", "Qmc.C08.offdiag_never_altered", "Qmc.C08.no_offdiag_created",
+    "Qmc.C08.zero_weight_never_inserted_M", "Qmc.C08.zero_weight_never_inserted_HB",
+    "Qmc.C08.maxw_is_max", "Qmc.C08.maxw_bounds_current", "Qmc.C08.maxw_attained",
+    "Qmc.C02.heatbath_ratio_real_table", "Qmc.C02.heatbath_detailed_balance", "Qmc.C02.real_table_valid",
+    "Qmc.C02.table_valid_generic", "Qmc.C02.table_used_generic",
+]
 
 THEOREMS = [
     "exit_equal_normalisers",
@@ -36,15 +50,36 @@ RULE = ("generic samplers over four interaction families (two-site exchange-type
         "element; start draws include the boundary words of both uniform maps; flags/offset/energy on perturbed call lists "
         "(rejected calls, broken symmetry, missing constant term); timestep vs the four public sub-calls on deep clones. "
         "Non-trivial = the loop changed the configuration or visited >= 2 vertices / a free variable exists / exactly one "
-        "composition matches / at least one call accepted; distinct = distinct input line.")
+        "composition matches / at least one call accepted; distinct = distinct input line. "
+        "The diagonal-update kernel the generic sampler composes is re-checked with the harness modes of C08 (traj, prob: random "
+        "table Hamiltonians, Metropolis / heat-bath sweeps replayed, slot thresholds bisected) and C02 (tables, sweeps, prob: stored "
+        "heat-bath table after random make_*interaction / set_do_heatbath / diagonal_update sequences on Qmc, exact sweeps, thresholds).")
 
 
 def main(ck):
     if ck.lake_build(LEAN_TARGETS):
         ck.audit("QmcProps.C04", ["Qmc.C04." + t for t in THEOREMS])
+        ck.prop_audit_extra = True
+        save = ck.prop
+        ck.prop = save + "k"          # separate .audit files
+        ck.audit("QmcProps.C08", [t for t in KERNEL_THEOREMS if t.startswith("Qmc.C08")])
+        ck.prop = save + "h"
+        ck.audit("QmcProps.C02", [t for t in KERNEL_THEOREMS if t.startswith("Qmc.C02")])
+        ck.prop = save
     if ck.cargo_build(BINS):
         for mode, name in [("traj", "loop-trajectory+free-refresh+pipeline"), ("exit", "exit-leg-distribution"),
                            ("start", "loop-start-draw-map"), ("gate", "flags-offset-energy")]:
             cases = ck.harness("c04", [mode])
             ck.correspond(name, "drv_c04", cases)
+        # known finding F20 (non-ergodic interaction sets; fixed, seed-independent witness inputs)
+        ck.correspond("nonergodic-witness", "drv_c04", ck.harness("c04", ["nonergodic"]))
+        # the diagonal-update kernels C04 composes (same harness modes as C08 / C02)
+        ck.correspond("diagonal-sweep-trajectory", "drv_c08", ck.harness("c08", ["traj"]))
+        ck.correspond("diagonal-slot-probabilities", "drv_c08", ck.harness("c08", ["prob"]))
+        ck.correspond("heatbath-table-invariant", "drv_c02", ck.harness("c02", ["tables"]))
+        ck.correspond("heatbath-sampler-sweeps", "drv_c02", ck.harness("c02", ["sweeps"]))
+        ck.correspond("heatbath-sampler-probabilities", "drv_c02", ck.harness("c02", ["prob"]))
+    ck.notes.append("The kernel theorems and correspondence modes of C08 (diagonal update: slot ratio, weight step, off-diagonal "
+                    "operators untouched, max-weight table) and C02 (heat-bath table validity and ratio) are re-audited / re-run here, "
+                    "so that a change to the diagonal update (diagonal.rs / heatbath.rs) is reported against C04 as well.")
     return ck.finish(RULE)
